@@ -5,6 +5,8 @@ import (
 	"strings"
 	"time"
 
+	"seehuhn.de/go/postscript/cid"
+	"seehuhn.de/go/postscript/funit"
 	"seehuhn.de/go/sfnt"
 	"seehuhn.de/go/sfnt/cff"
 	"seehuhn.de/go/sfnt/glyf"
@@ -24,6 +26,9 @@ type result struct {
 	origFont, subFont *sfnt.Font
 	sel               []glyph.ID // the final s.glyphs (reconstructed for Font.Subset on TrueType)
 	selOK             bool
+
+	retained       string        // "" or: the subset changed when the caller's slices were overwritten after the call
+	changeOriginal func() string // overwrites what a caller may overwrite in the original afterwards; "" or how the subset changed
 
 	rereadChecked bool // the oracle wrote the subset, read it back and compared it with the re-read original
 
@@ -48,8 +53,11 @@ func withTimeout(d time.Duration, fn func()) (timedOut bool) {
 const listSentinel = 0xFFFE
 
 // guardedList hands the glyph list over the way a caller that carved it out of
-// a larger array does: with spare capacity (sentinels) behind it.
-func guardedList(gl []int) (list []glyph.ID, intact func() bool) {
+// a larger array does: with spare capacity (sentinels) behind it.  scribble
+// overwrites the whole array the way a caller does who reuses its buffer
+// after the call: with other valid glyph ids (n = number of glyphs of the
+// font), the same ids in another order, or garbage.
+func guardedList(gl []int, n int) (list []glyph.ID, intact func() bool, scribble func()) {
 	full := make([]glyph.ID, len(gl)+4)
 	for i, g := range gl {
 		full[i] = glyph.ID(g)
@@ -71,7 +79,26 @@ func guardedList(gl []int) (list []glyph.ID, intact func() bool) {
 		}
 		return true
 	}
-	return list, intact
+	scribble = func() {
+		switch {
+		case n > 0 && len(gl)%3 == 0: // other valid glyphs
+			for i := range full {
+				full[i] = glyph.ID((int(full[i]) + 1 + i) % n)
+			}
+		case n > 0 && len(gl)%3 == 1: // the same glyphs in another order, valid ids behind them
+			for i, j := 0, len(gl)-1; i < j; i, j = i+1, j-1 {
+				full[i], full[j] = full[j], full[i]
+			}
+			for i := len(gl); i < len(full); i++ {
+				full[i] = glyph.ID(i % n)
+			}
+		default: // garbage
+			for i := range full {
+				full[i] = glyph.ID(0xFFFF - i)
+			}
+		}
+	}
+	return list, intact, scribble
 }
 
 // otherList is a different list for the first of two calls (Twice): the same
@@ -145,11 +172,32 @@ func normFD(d *CffDesc) *CffDesc {
 }
 
 // exec builds the real input, calls the real code and projects the result.
+//
+// The subset is observed twice: right after the call, and again after every
+// slice the caller handed in (the glyph list with the capacity behind it, the
+// extras) has been overwritten, as a caller does who reuses its buffers.  The
+// observation compared with the model, and everything the oracle looks at, is
+// the SECOND one; the two must agree (the subset keeps no reference to
+// caller-owned memory).
 func exec(c *Case) (res result, err error) {
-	var call func() // the call of the code under test; fills res
+	var call func()           // the call of the code under test; fills res
+	var observe func() string // the canonical observation of the subset as it is now
 	var hashArgs func() [32]byte
-	gl, intact := guardedList(c.GL)
-	extras := toGIDs(c.Extras)
+	nGlyphs := 0
+	switch {
+	case c.Cff != nil:
+		nGlyphs = len(c.Cff.Glyphs)
+	case c.Glyf != nil:
+		nGlyphs = len(c.Glyf.Glyphs)
+	case c.Font != nil && c.Font.Cff != nil:
+		nGlyphs = len(c.Font.Cff.Glyphs)
+	case c.Font != nil && c.Font.Glyf != nil:
+		nGlyphs = len(c.Font.Glyf.Glyphs)
+	}
+	gl, intact, scribble := guardedList(c.GL, nGlyphs)
+	extras, _, scribbleExtras := guardedList(c.Extras, nGlyphs)
+	scribbleFirst := func() {}
+	listed := toGIDs(c.GL) // the harness's own copy of the list
 
 	switch c.Sel {
 	case "cff":
@@ -165,12 +213,21 @@ func exec(c *Case) (res result, err error) {
 		call = func() {
 			if c.Which == "pub" {
 				res.subCff = o.Subset(gl)
-				res.sel = append([]glyph.ID(nil), gl...)
+				res.sel = append([]glyph.ID(nil), listed...)
 			} else {
 				res.subCff, res.sel = sfnt.VerifC10BSubsetCFF(o, gl, extras)
+				res.sel = append([]glyph.ID(nil), res.sel...)
 			}
 			res.selOK = true
-			res.obs = vlib.Str(vlib.L(vlib.Atom("ok"), obsCff(res.subCff)))
+		}
+		observe = func() string { return vlib.Str(vlib.L(vlib.Atom("ok"), obsCff(res.subCff))) }
+		res.changeOriginal = func() string {
+			before := observe()
+			changeCff(o)
+			if observe() != before {
+				return "the subset of CFF outlines changed when entries of the original's slices / its FDSelect function were replaced afterwards"
+			}
+			return ""
 		}
 	case "glyf":
 		o := BuildGlyf(c.Glyf, c.Flags.Alias)
@@ -180,9 +237,21 @@ func exec(c *Case) (res result, err error) {
 		res.origGlyf = o
 		hashArgs = func() [32]byte { return deepHash(o) }
 		call = func() {
-			res.subGlyf, res.sel, _ = sfnt.VerifC10BSubsetGlyf(o, gl, extras)
+			var sel []glyph.ID
+			res.subGlyf, sel, _ = sfnt.VerifC10BSubsetGlyf(o, gl, extras)
+			res.sel = append([]glyph.ID(nil), sel...)
 			res.selOK = true
-			res.obs = vlib.Str(vlib.L(vlib.Atom("ok"), obsGlyf(stateLen(c.GL, c.Extras), res.sel, res.subGlyf)))
+		}
+		observe = func() string {
+			return vlib.Str(vlib.L(vlib.Atom("ok"), obsGlyf(stateLen(c.GL, c.Extras), res.sel, res.subGlyf)))
+		}
+		res.changeOriginal = func() string {
+			before := observe()
+			changeGlyf(o)
+			if observe() != before {
+				return "the subset of TrueType outlines changed when entries of the original's Glyphs / Widths / Names were replaced afterwards"
+			}
+			return ""
 		}
 	case "font":
 		f, err := BuildFont(c.Font, c.Flags.Alias)
@@ -206,9 +275,11 @@ func exec(c *Case) (res result, err error) {
 		}
 		res.origFont = f
 		hashArgs = func() [32]byte { return fontHash(f) }
+		origGlyf, _ := f.Outlines.(*glyf.Outlines)
 		call = func() {
 			if c.Flags.Twice {
-				l1, _ := guardedList(otherList(c.GL))
+				l1, _, s1 := guardedList(otherList(c.GL), nGlyphs)
+				scribbleFirst = s1
 				first := f.Subset(l1)
 				h1 := fontHash(first)
 				res.subFont = f.Subset(gl)
@@ -218,21 +289,52 @@ func exec(c *Case) (res result, err error) {
 			} else {
 				res.subFont = f.Subset(gl)
 			}
+			switch so := res.subFont.Outlines.(type) {
+			case *cff.Outlines:
+				res.sel, res.selOK = append([]glyph.ID(nil), listed...), true
+			case *glyf.Outlines:
+				res.sel, res.selOK = reconstructSel(origGlyf, so, listed)
+			}
+		}
+		observe = func() string {
 			var outl vlib.Sx
 			switch so := res.subFont.Outlines.(type) {
 			case *cff.Outlines:
-				res.sel, res.selOK = append([]glyph.ID(nil), gl...), true
 				outl = vlib.L(vlib.Atom("cff"), obsCff(so))
 			case *glyf.Outlines:
-				res.sel, res.selOK = reconstructSel(f.Outlines.(*glyf.Outlines), so, gl)
 				outl = vlib.L(vlib.Atom("glyf"), obsGlyf(len(c.GL), res.sel, so))
 			default:
 				outl = vlib.Atom("no-outlines")
 			}
-			res.obs = vlib.Str(vlib.L(vlib.Atom("ok"), vlib.L(outl, obsCMap(res.subFont.CMapTable))))
+			return vlib.Str(vlib.L(vlib.Atom("ok"), vlib.L(outl, obsCMap(res.subFont.CMapTable))))
+		}
+		res.changeOriginal = func() string {
+			before := observe()
+			switch o := f.Outlines.(type) {
+			case *cff.Outlines:
+				changeCff(o)
+			case *glyf.Outlines:
+				changeGlyf(o)
+			}
+			for k := range f.CMapTable {
+				f.CMapTable[k] = []byte{0, 4, 0, 0}
+			}
+			if observe() != before {
+				return "the subset font changed when entries of the original's outline slices / cmap table were replaced afterwards"
+			}
+			return ""
 		}
 	default:
 		return res, fmt.Errorf("unknown selector %q", c.Sel)
+	}
+
+	safeObserve := func() (obs string) {
+		defer func() {
+			if e := recover(); e != nil {
+				obs = fmt.Sprint("unprojectable: ", e)
+			}
+		}()
+		return observe()
 	}
 
 	before := hashArgs()
@@ -248,6 +350,7 @@ func exec(c *Case) (res result, err error) {
 	})
 	if res.hung {
 		res.obs = "hang"
+		res.changeOriginal = nil
 		return res, nil
 	}
 	if hashArgs() != before {
@@ -255,7 +358,89 @@ func exec(c *Case) (res result, err error) {
 	} else if !intact() {
 		res.modified = "the glyph list handed to Subset (or the spare capacity behind it) was overwritten"
 	}
+	if res.panicked {
+		res.changeOriginal = nil
+		return res, nil
+	}
+	first := safeObserve()
+	// the caller reuses its buffers
+	scribble()
+	scribbleExtras()
+	scribbleFirst()
+	res.obs = safeObserve()
+	if res.obs != first {
+		i := 0
+		for i < len(first) && i < len(res.obs) && first[i] == res.obs[i] {
+			i++
+		}
+		cut := func(x string) string {
+			lo, hi := i-80, i+80
+			if lo < 0 {
+				lo = 0
+			}
+			if hi > len(x) {
+				hi = len(x)
+			}
+			if lo > len(x) {
+				return ""
+			}
+			return x[lo:hi]
+		}
+		res.retained = fmt.Sprintf("the subset changed when the caller overwrote the glyph list it had passed to Subset (the subset keeps a reference to caller-owned memory); observation right after the call ...%s... and after the overwrite ...%s...", cut(first), cut(res.obs))
+	}
 	return res, nil
+}
+
+// changeCff replaces, in the original outlines, what a caller may replace
+// after subsetting without touching anything the subset is documented to
+// share (the *Glyph and *PrivateDict values): the FDSelect function, and the
+// ENTRIES of the Glyphs, Private, FontMatrices, GIDToCID and Encoding slices.
+func changeCff(o *cff.Outlines) {
+	np := len(o.Private)
+	if o.FDSelect != nil {
+		old := o.FDSelect
+		o.FDSelect = func(gid glyph.ID) int {
+			if np == 0 {
+				return 0
+			}
+			return (old(gid) + 1) % np
+		}
+	}
+	for i, j := 0, len(o.Private)-1; i < j; i, j = i+1, j-1 {
+		o.Private[i], o.Private[j] = o.Private[j], o.Private[i]
+	}
+	for i, j := 0, len(o.FontMatrices)-1; i < j; i, j = i+1, j-1 {
+		o.FontMatrices[i], o.FontMatrices[j] = o.FontMatrices[j], o.FontMatrices[i]
+	}
+	for i := range o.FontMatrices {
+		o.FontMatrices[i][4] += 1000
+	}
+	for i := range o.Glyphs {
+		o.Glyphs[i] = sentinelGlyph
+	}
+	for i := range o.GIDToCID {
+		o.GIDToCID[i] += 7
+	}
+	for i := range o.Encoding {
+		o.Encoding[i] = glyph.ID(i % 3)
+	}
+	if o.ROS != nil {
+		o.ROS = &cid.SystemInfo{Registry: "Changed", Ordering: "Afterwards", Supplement: 9}
+	}
+}
+
+// changeGlyf: the ENTRIES of Glyphs, Widths and Names (Tables and Maxp are
+// shared with the subset by design: "Tables: oldOutlines.Tables").
+func changeGlyf(o *glyf.Outlines) {
+	for i := range o.Glyphs {
+		o.Glyphs[i] = &glyf.Glyph{Rect16: funit.Rect16{LLx: 0x0EEE}}
+	}
+	for i := range o.Widths {
+		o.Widths[i] += 11
+	}
+	for i := range o.Names {
+		o.Names[i] = "changed-afterwards"
+	}
 }
 
 // reconstructSel recovers s.glyphs from a subset made by Font.Subset: new
